@@ -95,3 +95,261 @@ theorem bsolves_length (xp : V) (rows : List (BRow R V)) (xs : List V) (h : BSol
     | cons x xs => simp [ih x xs h.2]
 
 end
+
+/-! ## uniqueness of the block solve, and the adjoint of the two sweeps
+
+`ip` is a bilinear pairing of vectors with `ip (a • v) w = ip v (tr a • w)` (for column vectors and matrices:
+the dot product and the transpose).  `adj_back` and `adj_fwd` are the adjoints of back substitution and forward
+elimination: together they say that the transposed sweeps `bsolveT` compute `A⁻ᵀ g`.
+-/
+section adjoint
+variable {R V S : Type} [Ring R] [AddCommGroup V] [Module R V] [AddCommGroup S]
+variable (inv tr : R → R)
+
+/-- pivots are two-sided inverses (true for the closed-form inverses over a commutative ring) -/
+def BPivOK2 : Option (BFact R V) → List (BRow R V) → Prop
+  | _, [] => True
+  | none, r :: rs => (r.d * inv r.d = 1 ∧ inv r.d * r.d = 1) ∧ BPivOK2 (some ⟨inv r.d, r.u, r.l, r.b⟩) rs
+  | some p, r :: rs =>
+      let dn := r.d - r.l * (p.dinv * p.u)
+      (dn * inv dn = 1 ∧ inv dn * dn = 1) ∧ BPivOK2 (some ⟨inv dn, r.u, r.l, r.b - r.l • (p.dinv • p.b)⟩) rs
+
+theorem bpivOK_of_2 (st : Option (BFact R V)) (rows : List (BRow R V)) (h : BPivOK2 inv st rows) : BPivOK inv st rows := by
+  induction rows generalizing st with
+  | nil => cases st <;> trivial
+  | cons r rs ih =>
+    cases st with
+    | none => exact ⟨h.1.1, ih _ h.2⟩
+    | some p => exact ⟨h.1.1, ih _ h.2⟩
+
+/-- **uniqueness**: any solution of the block system (compatible with the eliminated previous row) is the one the
+sweeps return -/
+theorem bthomas_unique_some (p : BFact R V) (rows : List (BRow R V)) (hp : BPivOK2 inv (some p) rows) (xs : List V) (xp : V)
+    (hx : BSolves xp rows xs) (hrel : xp = p.dinv • (p.b - p.u • xs.headD 0)) :
+    xs = @bback R V (ringBlk inv tr) (@bfwd R V (ringBlk inv tr) (some p) rows) := by
+  induction rows generalizing p xs xp with
+  | nil => cases xs <;> simp_all [BSolves, bfwd, bback]
+  | cons r rs ih =>
+    cases xs with
+    | nil => simp [BSolves] at hx
+    | cons x xs =>
+      obtain ⟨⟨hden, hden'⟩, hrest⟩ := hp
+      obtain ⟨hrow, hx'⟩ := hx
+      simp only [List.headD_cons] at hrel
+      set dn := r.d - r.l * (p.dinv * p.u) with hdn
+      -- x = inv dn • (b' - u • next)
+      have hxe : x = inv dn • ((r.b - r.l • (p.dinv • p.b)) - r.u • xs.headD 0) := by
+        have h1 : dn • x = (r.b - r.l • (p.dinv • p.b)) - r.u • xs.headD 0 := by
+          rw [hdn, sub_smul, mul_smul, mul_smul]
+          rw [hrel] at hrow
+          simp only [smul_sub] at hrow ⊢
+          -- rearrange: l•Z•pb − l•Z•U•x + d•x + u•nx = b
+          calc r.d • x - r.l • p.dinv • p.u • x
+              = (r.l • p.dinv • p.b - r.l • p.dinv • p.u • x + r.d • x + r.u • xs.headD 0) - r.l • p.dinv • p.b - r.u • xs.headD 0 := by abel
+            _ = r.b - r.l • p.dinv • p.b - r.u • xs.headD 0 := by rw [hrow]
+        calc x = (inv dn * dn) • x := by rw [hden', one_smul]
+          _ = inv dn • (dn • x) := by rw [mul_smul]
+          _ = _ := by rw [h1]
+      have := ih ⟨inv dn, r.u, r.l, r.b - r.l • (p.dinv • p.b)⟩ hrest xs x hx' hxe
+      simp only [bfwd, bback_cons, BlkOps.mul, BlkOps.sub, BlkOps.inv, BlkOps.act, BlkOps.vsub]
+      rw [← this, ← hxe]
+
+theorem bthomas_unique (rows : List (BRow R V)) (hp : BPivOK2 inv none rows) (xs : List V) (hx : BSolves 0 rows xs) :
+    xs = @bthomas R V (ringBlk inv tr) rows := by
+  cases rows with
+  | nil => cases xs <;> simp_all [BSolves, bthomas, bfwd, bback]
+  | cons r rs =>
+    cases xs with
+    | nil => simp [BSolves] at hx
+    | cons x xs =>
+      obtain ⟨⟨hden, hden'⟩, hrest⟩ := hp
+      obtain ⟨hrow, hx'⟩ := hx
+      have hxe : x = inv r.d • (r.b - r.u • xs.headD 0) := by
+        have h1 : r.d • x = r.b - r.u • xs.headD 0 := by
+          rw [smul_zero, zero_add] at hrow
+          rw [← hrow]; abel
+        calc x = (inv r.d * r.d) • x := by rw [hden', one_smul]
+          _ = inv r.d • (r.d • x) := by rw [mul_smul]
+          _ = _ := by rw [h1]
+      have := bthomas_unique_some inv tr ⟨inv r.d, r.u, r.l, r.b⟩ rs hrest xs x hx' hxe
+      simp only [bthomas, bfwd, bback_cons, BlkOps.inv]
+      rw [← this, ← hxe]
+
+variable (ip : V → V → S)
+
+/-- pairing of two lists of vectors -/
+def ipSum : List V → List V → S
+  | a :: as, b :: bs => ip a b + ipSum as bs
+  | _, _ => 0
+
+structure IsPairing : Prop where
+  add_left : ∀ a b c, ip (a + b) c = ip a c + ip b c
+  add_right : ∀ a b c, ip a (b + c) = ip a b + ip a c
+  adj : ∀ (m : R) (v w : V), ip (tr m • v) w = ip v (m • w)
+
+variable {ip tr}
+
+theorem IsPairing.sub_left (h : IsPairing tr ip) (a b c : V) : ip (a - b) c = ip a c - ip b c := by
+  have := h.add_left (a - b) b c
+  rw [sub_add_cancel] at this
+  rw [this]; abel
+theorem IsPairing.sub_right (h : IsPairing tr ip) (a b c : V) : ip a (b - c) = ip a b - ip a c := by
+  have := h.add_right a (b - c) c
+  rw [sub_add_cancel] at this
+  rw [this]; abel
+theorem IsPairing.zero_right (h : IsPairing tr ip) (a : V) : ip a 0 = 0 := by
+  have := h.add_right a 0 0
+  rw [add_zero] at this
+  have h2 : ip a 0 + 0 = ip a 0 + ip a 0 := by rw [add_zero]; exact this
+  exact (add_left_cancel h2).symm
+
+
+theorem bbackT_cons_cons (f f' : BFact R V) (fs : List (BFact R V)) (lam : V) (lams : List V)
+    (hl : lams.length = fs.length + 1) :
+    @bbackT R V (ringBlk inv tr) (f :: f' :: fs) (lam :: lams)
+      = (lam - tr (f'.l * f.dinv) • (@bbackT R V (ringBlk inv tr) (f' :: fs) lams).headD 0)
+          :: @bbackT R V (ringBlk inv tr) (f' :: fs) lams := by
+  have hne : @bbackT R V (ringBlk inv tr) (f' :: fs) lams ≠ [] := by
+    match fs, lams, hl with
+    | [], [l0], _ => simp [bbackT]
+    | f2 :: fs2, l0 :: l1 :: ls, _ =>
+      simp only [bbackT]
+      split <;> simp
+  simp only [bbackT]
+  cases hb : @bbackT R V (ringBlk inv tr) (f' :: fs) lams with
+  | nil => exact absurd hb hne
+  | cons ln rest => simp [BlkOps.act, BlkOps.vsub, BlkOps.tr, BlkOps.mul]
+
+theorem bfwdT_length (st : Option (BFact R V × V)) (fs : List (BFact R V)) (g : List V) (hg : g.length = fs.length) :
+    (@bfwdT R V (ringBlk inv tr) st fs g).length = fs.length := by
+  induction fs generalizing st g with
+  | nil => cases st <;> cases g <;> simp [bfwdT]
+  | cons f fs ih =>
+    match g, hg with
+    | g0 :: gs, hg =>
+      cases st with
+      | none => simp [bfwdT, ih _ gs (by simpa using hg)]
+      | some p => obtain ⟨p, lp⟩ := p; simp [bfwdT, ih _ gs (by simpa using hg)]
+
+/-- **adjoint of the back substitution** -/
+theorem adj_back (h : IsPairing tr ip) (st : Option (BFact R V × V)) (fs : List (BFact R V)) (g : List V)
+    (hg : g.length = fs.length) :
+    ipSum ip g (@bback R V (ringBlk inv tr) fs)
+        - (match st with
+           | some (p, lp) => ip (tr p.u • lp) ((@bback R V (ringBlk inv tr) fs).headD 0)
+           | none => 0)
+      = ipSum ip (@bfwdT R V (ringBlk inv tr) st fs g) (fs.map (·.b)) := by
+  induction fs generalizing st g with
+  | nil =>
+    cases g with
+    | nil => cases st with
+      | none => simp [bfwdT, bback, ipSum]
+      | some p => obtain ⟨p, lp⟩ := p; simp [bfwdT, bback, ipSum, h.zero_right]
+    | cons _ _ => simp at hg
+  | cons f fs ih =>
+    match g, hg with
+    | g0 :: gs, hg =>
+      have ih' := fun st' => ih st' gs (by simpa using hg)
+      rw [bback_cons]
+      set xn := (@bback R V (ringBlk inv tr) fs).headD 0 with hxn
+      cases st with
+      | none =>
+        simp only [bfwdT, ipSum, List.map_cons, List.headD_cons, BlkOps.act, BlkOps.tr, sub_zero]
+        have := ih' (some (f, tr f.dinv • g0))
+        simp only at this
+        rw [← this]
+        rw [← h.adj f.dinv g0 (f.b - f.u • xn), h.sub_right, ← h.adj f.u]
+        abel
+      | some p =>
+        obtain ⟨p, lp⟩ := p
+        simp only [bfwdT, ipSum, List.map_cons, List.headD_cons, BlkOps.act, BlkOps.tr, BlkOps.vsub]
+        have := ih' (some (f, tr f.dinv • (g0 - tr p.u • lp)))
+        simp only at this
+        rw [← this]
+        have e : ip g0 (f.dinv • (f.b - f.u • xn)) + ipSum ip gs (@bback R V (ringBlk inv tr) fs) - ip (tr p.u • lp) (f.dinv • (f.b - f.u • xn))
+            = ip (g0 - tr p.u • lp) (f.dinv • (f.b - f.u • xn)) + ipSum ip gs (@bback R V (ringBlk inv tr) fs) := by
+          rw [h.sub_left]; abel
+        rw [e, ← h.adj f.dinv (g0 - tr p.u • lp) (f.b - f.u • xn), h.sub_right, ← h.adj f.u]
+        abel
+
+/-- **adjoint of the forward elimination** -/
+theorem adj_fwd (h : IsPairing tr ip) (st : Option (BFact R V)) (rows : List (BRow R V)) (y : List V)
+    (hy : y.length = rows.length) :
+    ipSum ip y ((@bfwd R V (ringBlk inv tr) st rows).map (·.b))
+      = ipSum ip (@bbackT R V (ringBlk inv tr) (@bfwd R V (ringBlk inv tr) st rows) y) (rows.map (·.b))
+        - (match st, rows with
+           | some p, r :: _ => ip (tr (r.l * p.dinv) • (@bbackT R V (ringBlk inv tr) (@bfwd R V (ringBlk inv tr) st rows) y).headD 0) p.b
+           | _, _ => 0) := by
+  induction rows generalizing st y with
+  | nil => cases st <;> cases y <;> simp [bfwd, bbackT, ipSum]
+  | cons r rs ih =>
+    match y, hy with
+    | y0 :: ys, hy =>
+      have hys : ys.length = rs.length := by simpa using hy
+      -- the fact produced for this row
+      obtain ⟨f, hf, hfl, hfb⟩ : ∃ f : BFact R V,
+          @bfwd R V (ringBlk inv tr) st (r :: rs) = f :: @bfwd R V (ringBlk inv tr) (some f) rs ∧ f.l = r.l ∧
+          f.b = (match st with | some p => r.b - r.l • (p.dinv • p.b) | none => r.b) := by
+        cases st with
+        | none => exact ⟨_, rfl, rfl, rfl⟩
+        | some p => exact ⟨_, rfl, rfl, rfl⟩
+      rw [hf]
+      have ih' := ih (some f) ys hys
+      cases rs with
+      | nil =>
+        match ys, hys with
+        | [], _ =>
+          simp only [bfwd, bbackT, ipSum, List.map_cons, List.map_nil, List.headD_cons, add_zero]
+          cases st with
+          | none => simp only [hfb, sub_zero]
+          | some p =>
+            simp only [hfb]
+            rw [h.sub_right, h.adj (r.l * p.dinv), mul_smul]
+      | cons r2 rs2 =>
+        obtain ⟨f2, hf2, hf2l, _⟩ : ∃ f2 : BFact R V,
+            @bfwd R V (ringBlk inv tr) (some f) (r2 :: rs2) = f2 :: @bfwd R V (ringBlk inv tr) (some f2) rs2 ∧ f2.l = r2.l ∧ True :=
+          ⟨_, rfl, rfl, trivial⟩
+        rw [hf2] at ih' ⊢
+        have hlen : ys.length = (@bfwd R V (ringBlk inv tr) (some f2) rs2).length + 1 := by
+          have : ∀ (s : Option (BFact R V)) (l : List (BRow R V)), (@bfwd R V (ringBlk inv tr) s l).length = l.length := by
+            intro s l; induction l generalizing s with
+            | nil => cases s <;> simp [bfwd]
+            | cons a l ihl => cases s <;> simp [bfwd, ihl]
+          rw [this]; simpa using hys
+        rw [bbackT_cons_cons inv f f2 _ y0 ys hlen]
+        simp only [ipSum, List.map_cons, List.headD_cons] at ih' ⊢
+        set lam' := (@bbackT R V (ringBlk inv tr) (f2 :: @bfwd R V (ringBlk inv tr) (some f2) rs2) ys) with hlam
+        rw [hf2l]
+        rw [ih']
+        cases st with
+        | none =>
+          simp only [hfb, sub_zero]
+          rw [h.sub_left]; abel
+        | some p =>
+          simp only [hfb]
+          rw [h.sub_left, h.adj (r.l * p.dinv), mul_smul, h.sub_right, h.sub_right, h.sub_left]
+          abel
+
+/-- the transposed sweeps use only the cached `D⁻¹`, `U`, `L` of the facts, not the modified right-hand sides -/
+def sameLU (fs fs' : List (BFact R V)) : Prop :=
+  List.Forall₂ (fun a b => a.dinv = b.dinv ∧ a.u = b.u ∧ a.l = b.l) fs fs'
+
+/-- **the transposed solve is the adjoint of the solve**: for every solution `xs` of `A x = b` and every `g`,
+`Σ ⟨g_k, x_k⟩ = Σ ⟨(A⁻ᵀ g)_k, b_k⟩` with `A⁻ᵀ g` computed by the code's transposed sweeps -/
+theorem bsolveT_adjoint (h : IsPairing tr ip) (rows : List (BRow R V)) (hp : BPivOK2 inv none rows)
+    (xs g : List V) (hx : BSolves 0 rows xs) (hg : g.length = rows.length) :
+    ipSum ip g xs = ipSum ip (@bsolveT R V (ringBlk inv tr) (@bfwd R V (ringBlk inv tr) none rows) g) (rows.map (·.b)) := by
+  have hlenF : ∀ (s : Option (BFact R V)) (l : List (BRow R V)), (@bfwd R V (ringBlk inv tr) s l).length = l.length := by
+    intro s l; induction l generalizing s with
+    | nil => cases s <;> simp [bfwd]
+    | cons a l ihl => cases s <;> simp [bfwd, ihl]
+  rw [bthomas_unique inv tr rows hp xs hx]
+  have h1 := adj_back inv h none (@bfwd R V (ringBlk inv tr) none rows) g (by rw [hlenF]; exact hg)
+  simp only [sub_zero] at h1
+  have h2 := adj_fwd inv h none rows (@bfwdT R V (ringBlk inv tr) none (@bfwd R V (ringBlk inv tr) none rows) g)
+    (by rw [bfwdT_length inv _ _ _ (by rw [hlenF]; exact hg), hlenF])
+  simp only [sub_zero] at h2
+  simp only [bthomas, bsolveT]
+  rw [h1, h2]
+
+end adjoint
